@@ -856,3 +856,24 @@ func (freeFormProfile) GetClaims() psatoken.IClaims {
 	}
 	return &FreeFormClaims{EatProfile: &p}
 }
+
+// ---- a profile-1 derived extension whose codec methods have POINTER
+// receivers (the claims object itself reaches the embedding-aware helpers) ----
+
+const PtrRecvP1Name = "PSA_IOT_PROFILE_1_VERIF_PTRRECV"
+
+type PtrRecvP1Claims struct {
+	psatoken.P1Claims
+	Extra *int64 `cbor:"-75100,keyasint,omitempty" json:"extra,omitempty"`
+}
+
+func (o *PtrRecvP1Claims) MarshalCBOR() ([]byte, error) {
+	return encoding.SerializeStructToCBOR(hem, o)
+}
+func (o *PtrRecvP1Claims) UnmarshalCBOR(data []byte) error {
+	return encoding.PopulateStructFromCBOR(hdm, data, o)
+}
+func (o *PtrRecvP1Claims) MarshalJSON() ([]byte, error) { return encoding.SerializeStructToJSON(o) }
+func (o *PtrRecvP1Claims) UnmarshalJSON(data []byte) error {
+	return encoding.PopulateStructFromJSON(data, o)
+}
